@@ -149,6 +149,15 @@ def tasks(tier):
     # injectivity: same resolution pairs symbolic-in-everything-else, plus mixed resolutions via the symbolic task
     out.append(PTask("C05/injective[r1,r2 symbolic]", t_injective(repo, specs, None, None), [SER], deciding=True,
                      replay_kind="injective", timeout_ms=120000))
+    # "the ids enumerated at resolution r are exactly get_num_cells(r) many": expanding the world cell lists
+    # NCHILD(-1, r) = NCELLS(r) ids without repetition (C06 children contract for the world cell) and
+    # get_num_cells(r) = NCELLS(r) (C20 contract) - re-discharged here for the coarse levels, every level in thorough
+    from . import c06, c20
+    out.append(PTask("C05/count/get_num_cells", c20.t_num_cells(repo, specs), [c20.NUMCELLS], deciding=True, replay_kind="roundtrip"))
+    for r in (range(0, 30) if tier == "thorough" else (0, 1, 2)):
+        out.append(PTask("C05/count/children[world,to=%d]" % r, c06.t_children(repo, specs, -1, r), c06.FUNCS, deciding=True, replay_kind="roundtrip"))
+        out.append(PTask("C05/count/no-repetition[world,to=%d]" % r, c06.t_child_parent(repo, specs, -1, r), c06.FUNCS, deciding=True,
+                         replay_kind="roundtrip"))
     if tier == "thorough":
         out.append(PTask("C05/roundtrip[r symbolic]", t_roundtrip(repo, specs, None), FUNCS, deciding=True, replay_kind="roundtrip",
                          timeout_ms=120000))
